@@ -539,15 +539,15 @@ Proof.
   intros s s' H.
   apply (poll_Rp cci (reach false false) (ReRefl false false) (ReTrans false false)); try exact H.
   - apply poll_start_reach.
-  - apply maybe_send_syn_ack_reach.
-  - intros s0. apply stf_strch, send_ack_txf.
-  - apply process_all_incoming_messages_reach.
+  - intros s0. apply stR_stRk, maybe_send_syn_ack_reach.
+  - intros s0. apply stR_stRk, stf_strch, send_ack_txf.
+  - intros s0. apply stR_stRk, process_all_incoming_messages_reach.
   - apply rx_flush_reach.
-  - apply split_tx_queue_into_segments_reach.
-  - intros s0. apply stf_strch, send_tx_queue_txf.
+  - intros s0. apply stR_stRk, split_tx_queue_into_segments_reach.
+  - intros s0. apply stR_stRk, stf_strch, send_tx_queue_txf.
   - apply transition_to_fin_wait_1_reach.
-  - intros s0. apply stf_strch, maybe_send_fin_txf.
-  - intros s0. apply stf_strch, maybe_send_ack_txf.
+  - intros s0. apply stR_stRk, stf_strch, maybe_send_fin_txf.
+  - intros s0. apply stR_stRk, stf_strch, maybe_send_ack_txf.
 Qed.
 
 End WithCC.
